@@ -106,6 +106,19 @@ Theorem C09_check_exit_sound :
 Proof. exact check_exit_sound. Qed.
 Print Assumptions C09_check_exit_sound.
 
+(* the same validator evaluated in two pieces (program-wide part once, goal part per goal) *)
+Theorem C09_check_exit_split_sound :
+  forall law cmom fp T G' M Ss c0N tsN fN spN c0D tsD fD spD,
+    cmom_ok law cmom ->
+    check_base cmom fp T Ss = true -> check_part T G' M Ss c0N tsN fN spN c0D tsD fD spD = true ->
+    forall s0, init_ok fp T s0 -> forall n,
+      let d := frun law fp n s0 in
+      pw1 fN spN n = E d (fun s => ind (negb (holds G' s)) * eval_poly M s)%Qc /\
+      pw1 fD spD n = prob d (fun s => negb (holds G' s)) /\
+      (pw1 fN spN n / pw1 fD spD n)%Qc = cond_exp d (fun s => negb (holds G' s)) (eval_poly M).
+Proof. exact check_exit_split_sound. Qed.
+Print Assumptions C09_check_exit_split_sound.
+
 (* ---- the guard Polar stores ---- *)
 (* without a collapsed first-level if the stored guard is the source guard ... *)
 Theorem C09_stored_guard_collapse_free :
